@@ -148,10 +148,14 @@ fn write(f: &mut Full, o: &Value) -> (Res, Value, Value) {
         "lair.instantiate_growth" | "lair.instantiate_assets" => {
             let (g, n) = if w == "lair.instantiate_growth" { (growth_of(mv), 2usize) } else { (ONE / 1000, mv as usize) };
             let args = if w == "lair.instantiate_growth" { json!({"w": w, "family": "growth", "v": s(g)}) } else { json!({"w": w, "family": "assets", "v": n.to_string()}) };
-            let denoms = ["uwhale", "ubtc", "uatom"];
+            // the list of bonding assets: n distinct denoms, or (13 / 23) three entries one of which repeats another, literally or
+            // in another letter case
+            let list: Vec<&str> = match n { 13 => vec!["uwhale", "ubtc", "uwhale"], 23 => vec!["uwhale", "ubtc", "UWHALE"], k => ["uwhale", "ubtc", "uatom"].iter().take(k).cloned().collect() };
+            let n = list.len();
+            let args = if w == "lair.instantiate_growth" { args } else { json!({"w": w, "family": "assets", "v": n.to_string()}) };
             let r = cw_multi_test::Executor::instantiate_contract(&mut f.w.app, f.w.codes.whale_lair, owner.clone(), &white_whale_std::whale_lair::InstantiateMsg {
                 unbonding_period: Uint64::new(1_000_000_000_000), growth_rate: dec_atomics(g),
-                bonding_assets: denoms.iter().take(n).map(|d| AssetInfo::NativeToken { denom: d.to_string() }).collect() }, &[], "rawlair", None);
+                bonding_assets: list.iter().map(|d| AssetInfo::NativeToken { denom: d.to_string() }).collect() }, &[], "rawlair", None);
             match r { Ok(a) => { f.w.register("rawlair", &a); let c: white_whale_std::whale_lair::Config = f.w.query(&a, &white_whale_std::whale_lair::QueryMsg::Config {}).unwrap();
                     (Res::Ok(Default::default()), json!({"kind": "lair", "growth": s(c.growth_rate.atomics().u128()), "assets": c.bonding_assets.len().to_string()}), args) }
                 Err(e) => (Res::Rejected(e.to_string()), none(), args) }
